@@ -12,9 +12,7 @@ const JWT: &str = "j";
 fn cnf(kty: &str, x: &str) -> JMap<String, JValue> {
     let mut jwk = JMap::new();
     put(&mut jwk, "kty", jstr(kty));
-    put(&mut jwk, "crv", jstr("P-256"));
     put(&mut jwk, "x", jstr(x));
-    put(&mut jwk, "y", jstr("y"));
     let mut c = JMap::new();
     put(&mut c, "jwk", JValue::Object(jwk));
     c
